@@ -228,8 +228,8 @@ def _evaluated(F, which):
         from . import wmodel
         try:
             W, err = (wmodel.text_writer if which == "text" else wmodel.binary_writer)(F)
-        except RecursionError:
-            W, err = None, "recursion"
+        except (RecursionError, TypeError, IndexError, KeyError, ValueError, AttributeError) as ex:
+            W, err = None, "model unavailable (%s)" % type(ex).__name__
         _WCACHE[key] = (W, err)
         _WCACHE[(id(F), which, "keep")] = F  # keep F alive so that id() stays unique
     return _WCACHE[key][0]
@@ -242,8 +242,8 @@ def text_reader_evaluated(F):
         from . import rmodel
         try:
             R, err = rmodel.text_reader(F)
-        except RecursionError:
-            R, err = None, "recursion"
+        except (RecursionError, TypeError, IndexError, KeyError, ValueError, AttributeError) as ex:
+            R, err = None, "model unavailable (%s)" % type(ex).__name__
         _WCACHE[key] = (R, err)
         _WCACHE[(id(F), "rtext", "keep")] = F
     return _WCACHE[key][0]
@@ -255,8 +255,8 @@ def binary_reader_evaluated(F):
         from . import rmodel
         try:
             R, err = rmodel.binary_reader(F)
-        except RecursionError:
-            R, err = None, "recursion"
+        except (RecursionError, TypeError, IndexError, KeyError, ValueError, AttributeError) as ex:
+            R, err = None, "model unavailable (%s)" % type(ex).__name__
         _WCACHE[key] = (R, err)
         _WCACHE[(id(F), "rbin", "keep")] = F
     return _WCACHE[key][0]
